@@ -586,10 +586,44 @@ fn gen_rules() -> BoxedStrategy<Value> {
     gen::case2(rules::rooted(cfg), gen::data_docs())
 }
 
+
+/// accumulated state: see common::sweep
+fn sweep_item(kind: u64, k: usize) -> (Value, Value) {
+    match kind % 3 {
+        0 => (json!({"var": format!("k{}.v", k)}), json!({format!("k{}", k): {"v": k}, "k0": {"v": "zero"}})),
+        1 => (json!({"var": [format!("a.{}", k % 7), format!("d{}", k)]}), json!({"a": [0, 1, 2, 3, 4]})),
+        _ => (json!({"var": format!("x\\.{}", k)}), json!({format!("x.{}", k): k})),
+    }
+}
+
+fn check_state_sweep(case: &Value, obs: &mut Obs) -> Result<(), String> {
+    let w = case["w"].as_u64().unwrap_or(1) as usize;
+    let kind = case["kind"].as_u64().unwrap_or(0);
+    sweep(w, &|k| sweep_item(kind, k), obs)?;
+    obs.nt(&format!("sweep kind {} W {}", kind, if w < 64 { "<64" } else if w < 128 { "64-127" } else { "128+" }));
+    Ok(())
+}
+
+fn fixed_state_sweeps() -> Vec<Value> {
+    sweep_cases(3, 160)
+}
+
 pub fn property() -> Property {
     Property {
         id: "C11",
         subs: vec![
+            Sub {
+                name: "state_sweep",
+                about: "accumulated state: for every W in 1..160 and each kind of keyed work of this operator family (distinct dotted paths, indexed paths with per-item defaults, escaped-dot keys), W hot items are evaluated twice, then a new item, the hot set again, another new item, and everything in reverse; every call against the reference model - a cache, pool or table with any capacity up to 160 is driven exactly over its boundary.",
+                nontrivial: "every case.",
+                strategy: None,
+                fixed: Some(fixed_state_sweeps),
+                fixed_exhaustive: false,
+                check: check_state_sweep,
+                quick: 0,
+                thorough: 0,
+                small_stack: false,
+            },
             Sub {
                 name: "walks",
                 about: "data trees (objects with dotted / backslashed / numeric / empty / non-ASCII keys, arrays, strings with multi-byte characters, scalars, null fields) with a walk built by construction (object key, array index, character index; non-negative or negative), optionally damaged (index one past either end, non-integer index, missing key, step into a scalar); key written as escaped path, integer, computed with cat, or read from the data; with and without default; oracle = the value found by construction and the model; frame law: replacing everything off the path (and adding members) never changes the result.",
